@@ -147,6 +147,20 @@ CLAIMS["C15"] = dict(
     technique="context-sensitive taint analysis: template lexing for hole contexts + backward def-use origin tracing + inter-procedural parameter taint + per-context sanitizer obligations",
     ref="3/C15",
 )
+CLAIMS["C05"] = dict(
+    text="Decides the structural clauses behind response fidelity on the generator's code: (1) the three copies of the primary-response "
+    "selector are reduced to a normal form (ordered rules eq/startswith/in/first over both coding idioms) and must all equal "
+    "[200, 201, 202, 204, other 2xx, default, first] - the signature (strategy) and the handler therefore pick the same response; "
+    "(2) the strategy is resolved once and that value is threaded unchanged into signature, docstring, overloads and handler; (3) every "
+    "emit site of the response handler whose template mentions a runtime symbol (structure_from_dict, cast, iter_bytes, "
+    "iter_sse_events_text, json.loads, HTTPError) has the registration of its import on every CFG path through it (dominator / "
+    "post-dominator); (4) every `cast(T, response.json())` emit is preceded, on all paths, by tests that divert str / bytes to "
+    "response.text / response.content; (5) no-content primary and secondary responses emit `return None`; (6) the streaming templates "
+    "yield every item of the runtime decoder unchanged (the decoders themselves are C18). Typed value equality for a given body is "
+    "not decided.",
+    technique="sibling normal-form comparison + single-value threading (def-use) + must-pass-through import obligations on the CFG + guard dominance",
+    ref="3/C05",
+)
 
 NOT_APPLICABLE = {}
 
